@@ -70,6 +70,12 @@ func runC02(c *Ctx) {
 	c.ruleAcceptStoresGiven("S10-nodes-hold-what-was-parsed", map[string]bool{"IfStmt": true, "ElseIfStmt": true, "ElseStmt": true, "ForStmt": true, "ForRangeStmt": true,
 		"Statement": true, "RuleContent": true, "ReturnStatement": true, "Assignment": true})
 	c.Min("S10-nodes-hold-what-was-parsed", 20)
+	// S11: an assignment writes the variable that a later read of the same name reads: reads and writes
+	// resolve a name the same way, the injected table first and the rule's locals only when it missed
+	// (C03-I1). A write that falls through to the locals for a name the injected table holds binds a local
+	// no read ever sees: `Limit = 20` succeeds and the next statement reads 10, a loop counter stands still
+	c.ruleI1("S11-assigned-name-is-the-name-read")
+	c.Min("S11-assigned-name-is-the-name-read", 9)
 	// S8 shares C15's rules: one store per execution, threaded unchanged
 	n := 0
 	for _, f := range c.AllFns {
